@@ -273,7 +273,8 @@ def enc_lookup(chk, program, rule='ENC-NAME'):
                 calls.append((env[f.id].attrs['generated_function'], args))
                 return A.AObj(result_of=env[f.id].attrs['generated_function'])
             return NotImplemented
-        msg = A.AObj(PGN=A.AInt(pgn), id=A.AStr([('lit', mid)]), fields=A.AOpaque('fields'), source=A.AInt(1), destination=A.AInt(255), priority=A.AInt(3))
+        msg = A.AObj(PGN=A.AInt(pgn), id=A.AStr([('lit', mid)]), fields=A.AOpaque('fields'), source=A.AInt(1), destination=A.AInt(255), priority=A.AInt(3),
+                     description=A.AStr([('lit', 'Some Description')]), ttl=None, timestamp=A.AOpaque('timestamp'), hash=None, source_iso_name=None, raw_can_data=None)
         it = A.Interp(hook=hook, skip=is_logger, methods=methods, functions=funcs)
         selfo = A.AObj()
         selfo.attrs.update(A.class_constants(None, cls))
